@@ -966,12 +966,12 @@ func vfSteps() int {
 
 const vfFindingGetMempool = "C21-getmempool-unlocked-walk"
 
-// TestKnown_GetMempoolWalksUnlocked pins the data race the concurrent variant finds under -race without needing the
+// TestKnown_C21GetMempoolWalksUnlocked pins the data race the concurrent variant finds under -race without needing the
 // race detector: every mutation of the pool happens under mem.proxyMtx, so a query that reads the pool contents must
 // take that lock too, otherwise it can interleave inside a push or a sweep. The probe holds the lock and sends the
 // query: a reply that arrives while the lock is still held proves the handler read the pool without it. (No reply
 // within the probe window = the handler waits for the lock = no finding; the clock can only ever hide the finding.)
-func TestKnown_GetMempoolWalksUnlocked(t *testing.T) {
+func TestKnown_C21GetMempoolWalksUnlocked(t *testing.T) {
 	defer lib.Flush()
 	vfInitSenders()
 	e := vfNewEnv(vfOpts{cap: 4, perAcc: 4, maxLast: 4})
@@ -1002,7 +1002,7 @@ func TestKnown_GetMempoolWalksUnlocked(t *testing.T) {
 		lib.Inconclusive("probe unsound: EventTxList answered while the pool lock was held")
 	}
 	if probe(types.EventGetMempool, &types.ReqGetMempool{IsAll: true}, 3*time.Second) {
-		lib.KnownOrViolation(t, "C21", "TestKnown_GetMempoolWalksUnlocked", vfFindingGetMempool,
+		lib.KnownOrViolation(t, "C21", "TestKnown_C21GetMempoolWalksUnlocked", vfFindingGetMempool,
 			map[string]interface{}{"pool": 2, "event": "EventGetMempool", "probe": "sent while the harness holds mem.proxyMtx"},
 			"EventGetMempool reads the pool (filterTxList -> cache.Walk) without holding mem.proxyMtx: concurrent with a push or a sweep this is a data race (reported by -race in the concurrent variant)")
 	}
